@@ -53,6 +53,29 @@ Theorem C20_mds_handle : forall m h s,
 Proof. exact resolve_ctx_mds. Qed.
 Print Assumptions C20_mds_handle.
 
+(* request shape: the answer depends only on the SET of requested handles - a handle named twice or a different
+   order of the handles selects the same states (by key) *)
+Theorem C20_getmdstate_depends_on_handle_set : forall flag m hs1 hs2, hs1 <> [] -> hs2 <> [] ->
+  (forall h, In h hs1 -> In h hs2) ->
+  forall s, In s (get_md_state flag m hs1) -> exists y, In y (get_md_state flag m hs2) /\ qs_eqb y s = true.
+Proof. exact get_md_state_handle_set. Qed.
+Print Assumptions C20_getmdstate_depends_on_handle_set.
+
+Theorem C20_getcontextstates_depends_on_handle_set : forall m hs1 hs2, hs1 <> [] -> hs2 <> [] ->
+  (forall h, In h hs1 -> In h hs2) ->
+  forall s, In s (get_context_states m hs1) -> exists y, In y (get_context_states m hs2) /\ qs_eqb y s = true.
+Proof. exact get_context_states_handle_set. Qed.
+Print Assumptions C20_getcontextstates_depends_on_handle_set.
+
+(* containment, for every request incl. the empty one: nothing is returned that the MDIB does not hold; GetMdState
+   returns a context state only when the provider is configured to do so; GetContextStates returns context
+   states only *)
+Theorem C20_nothing_outside_the_mdib : forall flag m handles s,
+  (In s (get_md_state flag m handles) -> In s (qm_states m) \/ (flag = true /\ In s (qm_cstates m))) /\
+  (In s (get_context_states m handles) -> In s (qm_cstates m)).
+Proof. intros flag m handles s. split; [apply get_md_state_contained | apply get_context_states_contained]. Qed.
+Print Assumptions C20_nothing_outside_the_mdib.
+
 (* GetLocalizedText: every returned text satisfies every given constraint (references, version or latest
    version, languages, text widths, number of lines) *)
 Theorem C20_text_filter_sound : forall st refs version langs widths lines both_key t,
